@@ -39,15 +39,13 @@ var builtinTags = map[int]map[slog.Level]string{
 
 var custTags = [slog.MaxLengthShortTag]string{"", "N", "NT", "NTC", "NOTC", "NOTIC"}
 
-// expectedTag: the registered custom tag; for a level registered without tags the first w characters
-// of its title; otherwise whatever Level.ShortTag(w) gives - the statement only fixes the WIDTH of the
+// expectedTag: the registered custom tag; otherwise (also for a level registered without tags) whatever
+// Level.ShortTag(w) gives - the statement only fixes the WIDTH of the
 // tag, which is asserted separately (the documented built-in table is kept for reference in builtinTags).
 func expectedTag(l slog.Level, w int) string {
 	switch l {
 	case custTagged:
 		return custTags[w]
-	case custPlain:
-		return ("plainlvl" + "     ")[:w]
 	}
 	return l.ShortTag(w)
 }
